@@ -133,10 +133,28 @@ fn run(line: &str) -> String {
         let mut fails: std::collections::BTreeSet<&'static str> = Default::default();
         let mut emitted: Vec<String> = Vec::new();
         'outer: for r in 0..=restarts {
-            let mut b = emit_file::set(&path).max_files(max).reuse_files(reuse).roll_by_minute();
-            if size > 0 {
-                b = b.max_file_size_bytes(size);
-            }
+            // the builder's setters commute: limits first and the writer last, the writer first and the limits last, or
+            // the default writer — the order of the calls rotates with the restart number (the custom writer produces
+            // the line shape the oracle below reads)
+            let custom = |buf: &mut emit_file::FileBuf, evt: &emit::Event<&dyn emit::props::ErasedProps>| -> std::io::Result<()> {
+                use emit::Props as _;
+                let marker = evt.props().get("marker").map(|v| v.to_string()).unwrap_or_default();
+                buf.extend_from_slice(format!("{{\"mdl\":\"rfs\",\"marker\":\"{}\"}}", marker).as_bytes());
+                Ok(())
+            };
+            let limits = |b: emit_file::FileSetBuilder| {
+                let b = b.max_files(max).reuse_files(reuse).roll_by_minute();
+                if size > 0 {
+                    b.max_file_size_bytes(size)
+                } else {
+                    b
+                }
+            };
+            let b = match r % 3 {
+                1 => limits(emit_file::set(&path)).writer(custom, b"\n"),
+                2 => limits(emit_file::set(&path).writer(custom, b"\n")),
+                _ => limits(emit_file::set(&path)),
+            };
             let files = b.spawn();
             for i in 0..n {
                 let marker = format!("r{}e{}x", r, i);
